@@ -409,6 +409,24 @@ func (w *walker) isTainted(e ast.Expr) bool {
 	return id != nil && id.Obj != nil && w.tainted[id.Obj]
 }
 
+// functions of the standard library that write through their slice argument
+var sliceMutators = map[string]map[string]bool{
+	"sort":   {"Sort": true, "Stable": true, "Slice": true, "SliceStable": true, "Ints": true, "Strings": true, "Float64s": true},
+	"slices": {"Sort": true, "SortFunc": true, "SortStableFunc": true, "Reverse": true},
+}
+
+// mentionsTainted: some identifier inside e is a value of a bytecode / ast type (or derived from one)
+func (w *walker) mentionsTainted(e ast.Expr) bool {
+	found := false
+	ast.Inspect(e, func(n ast.Node) bool {
+		if id, ok := n.(*ast.Ident); ok && id.Obj != nil && w.tainted[id.Obj] {
+			found = true
+		}
+		return !found
+	})
+	return found
+}
+
 func typeIsCode(t ast.Expr) bool {
 	if t == nil {
 		return false
@@ -523,6 +541,28 @@ func (w *walker) Visit(n ast.Node) ast.Visitor {
 			}
 		}
 	case *ast.CallExpr:
+		// library calls that write through a slice argument (an in-place sort or reversal, the builtin copy / clear):
+		// when the slice is reachable from a bytecode value this is a write to the program a Run shares
+		if w.f.pkg == "engine" {
+			mut := false
+			args := t.Args
+			if id, ok := t.Fun.(*ast.Ident); ok && id.Obj == nil && (id.Name == "copy" || id.Name == "clear") && len(args) > 0 {
+				mut, args = true, args[:1]
+			}
+			if se, ok := t.Fun.(*ast.SelectorExpr); ok {
+				if x, ok := se.X.(*ast.Ident); ok && x.Obj == nil && sliceMutators[w.imports[x.Name]][se.Sel.Name] {
+					mut = true
+				}
+			}
+			if mut {
+				for _, a := range args {
+					if w.mentionsTainted(a) {
+						codeWrites = append(codeWrites, [2]string{w.f.name, exprString(t)})
+						break
+					}
+				}
+			}
+		}
 		if se, ok := t.Fun.(*ast.SelectorExpr); ok {
 			if x, ok := se.X.(*ast.Ident); ok && x.Obj == nil {
 				switch w.imports[x.Name] {
